@@ -79,7 +79,7 @@ pub fn weights(p: Prop) -> [u8; NOPS] {
         Prop::C02 => [10, 6, 1, 1, 5, 5, 3, 1, 6, 1, 8, 4, 3, 3, 0, 0, 2],
         Prop::C03 => [14, 4, 0, 0, 5, 3, 2, 0, 1, 0, 0, 3, 0, 4, 12, 0, 0],
         Prop::C04 => [10, 5, 1, 1, 5, 4, 5, 3, 4, 1, 4, 5, 6, 4, 0, 0, 6],
-        Prop::C05 => [12, 6, 1, 2, 6, 5, 4, 1, 2, 3, 1, 4, 2, 2, 0, 0, 0],
+        Prop::C05 => [12, 6, 1, 2, 6, 5, 4, 1, 2, 3, 3, 4, 2, 2, 0, 0, 0],
         Prop::C06 => [10, 4, 3, 3, 5, 4, 3, 1, 3, 6, 3, 4, 3, 3, 0, 4, 4],
         Prop::C09 => [14, 3, 1, 1, 9, 5, 3, 0, 1, 16, 0, 2, 1, 0, 0, 0, 0],
         Prop::C10 => [14, 3, 1, 0, 7, 4, 2, 0, 9, 1, 9, 2, 2, 0, 0, 0, 0],
@@ -1084,7 +1084,7 @@ where
                 } else if !liar {
                     let rest: Vec<(u8, u32)> = before.iter().filter(|(k, _)| !ys.iter().any(|y| y.0 == **k)).map(|(k, id)| (*k, if KD::IDENT { *id } else { NOID })).collect();
                     let r = check_multiset(&po, &rest, true);
-                    cx.chk(P10, r.is_ok(), "adaptor", || format!("Set::into_iter after {} of {n} items: {}", ys.len(), r.clone().err().unwrap_or_default()));
+                    cx.chk(P10.and(Prop::C05), r.is_ok(), "adaptor", || format!("Set::into_iter after {} of {n} items: {}", ys.len(), r.clone().err().unwrap_or_default()));
                 }
             } else if let Err(p) = Self::lib(cx, move || drop(it)) {
                 fault |= unexpected(cx, liar, P10, &p);
